@@ -26,9 +26,15 @@ var (
 	propID      = "C14"
 	harnessName = "c14"
 	diskMode    = false
+	// stopMode: the harness as part C of C03: the scenarios that end with the real stop order (scripted controllers
+	// or the real watchdogs before it), judged for "the stop request returns" only
+	stopMode = false
 )
 
 func init() {
+	if os.Getenv("VERIF_PART") == "c03c" || os.Getenv("VERIF_HARNESS") == "c03c" {
+		propID, harnessName, stopMode = "C03", "c03c", true
+	}
 	if os.Getenv("VERIF_PART") == "c18b" || strings.HasSuffix(os.Args[0], "c18b") || os.Getenv("VERIF_HARNESS") == "c18b" {
 		propID, harnessName, diskMode = "C18", "c18b", true
 	}
@@ -527,6 +533,18 @@ func main() {
 		}
 		ss = f
 	}
+	if stopMode {
+		var f []scen
+		for _, s := range ss {
+			// ... and the scripts of two controllers: in Zeno a controller is a watchdog goroutine, and the stop order
+			// begins by waiting for the watchdogs (StopDiskWatcher, StopWARCWritingQueueWatcher): a controller that
+			// never returns from its call is a stop request that never returns
+			if s.Stop || s.Watchers && s.StopAt > 0 || len(s.Scripts) == 2 {
+				f = append(f, s)
+			}
+		}
+		ss = f
+	}
 	if a.Replay != "" {
 		replay(a.Replay)
 		return
@@ -579,6 +597,9 @@ func main() {
 			if seen[v.Sig] {
 				continue
 			}
+			if stopMode && !strings.HasPrefix(v.Sig, "stop") && !strings.Contains(v.Sig, "blocks-caller") && v.Kind != "crash" && v.Kind != "deadlock" {
+				continue // what else goes wrong around a pause is C14's business
+			}
 			seen[v.Sig] = true
 			if err := vsched.Confirm(scenario(&ss[j]), &v); err != nil {
 				hkit.EngineError("violation did not replay: %v", err)
@@ -592,12 +613,12 @@ func main() {
 		"states": total.States, "transitions": total.Transitions, "traces_validated_against_impl": total.Executions,
 		"samples": []any{total.Sample}, "exhaustive": total.Exhaustive, "scenarios": len(ss), "distinct_outcomes": len(outcomes),
 		"per_scenario": per,
-		"explanation":  "real pause manager and the four real stage workers (full pipeline on a fake site) with 1-2 controller threads running every Pause/Resume script up to length 2 each (3 for a single controller), optionally followed by the real stop sequence; every schedule with at most P deviations from the canonical scheduler and all select outcomes",
+		"explanation":  map[bool]string{true: "part C of C03: the C14 harness restricted to the scenarios that end with the real stop order, judged for the stop sequence returning (pause controllers that overlap before the stop) - ", false: ""}[stopMode] + "real pause manager and the four real stage workers (full pipeline on a fake site) with 1-2 controller threads running every Pause/Resume script up to length 2 each (3 for a single controller), optionally followed by the real stop sequence; every schedule with at most P deviations from the canonical scheduler and all select outcomes",
 	}, []string{
 		"workers subscribe at start-up; Subscribe concurrent with Pause is not in the alphabet",
 		"sync.Map.Range of the subscriber table iterates in insertion order",
 	}, hkit.Violations())
-	fmt.Printf(propID+" %s"+map[bool]string{true: " (part B)", false: ""}[diskMode]+": %d scenarios, %d executions, %d states, %d transitions, exhaustive=%v\n", a.Tier, len(ss), total.Executions, total.States, total.Transitions, total.Exhaustive)
+	fmt.Printf(propID+" %s"+map[bool]string{true: " (part B)", false: ""}[diskMode]+map[bool]string{true: " (part C)", false: ""}[stopMode]+": %d scenarios, %d executions, %d states, %d transitions, exhaustive=%v\n", a.Tier, len(ss), total.Executions, total.States, total.Transitions, total.Exhaustive)
 	hkit.Exit()
 }
 
